@@ -2,13 +2,15 @@ import Driver.Util
 import Driver.Script
 import SfModel.HandleGInst
 import SfModel.HandleGInst2
+import SfModel.HandleGAiffRw
 open Sf
 
 /-! `sfmodel handleg` — the script language of `sfmodel script` (CONTRIBUTING.md, harness/sfh.c) interpreted on the GENERIC
     handle machine `Sf.HandleG` (lean/SfModel/HandleG.lean): every open picks the container instance (`specOfMajor` for a
     new file, `specOfBytes` = the signature tests for an existing one; RAW by the caller's format word), the handle keeps it.
     A line the model does not describe prints `unmodelled` (the comparer then skips the rest of that script).
-    `sfmodel handleg list` prints the instantiated containers. -/
+    `sfmodel handleg list` prints the instantiated containers; `sfmodel handleg text=<hex>`: the 124 text bytes a MAT5 header
+    starts with (package version, date), a parameter of the model. -/
 
 namespace HandleGDriver
 open Sf.HandleG
@@ -17,6 +19,8 @@ structure RunState where
   w : World := {}
   conts : List (Option Cont) := List.replicate 16 none
   dead : Bool := false
+  /-- the 124 text bytes of a MAT5 header (`sfmodel handleg text=<hex>`) -/
+  text : List Byte := mat5Text0
 
 def withHandle (st : RunState) (name : String) (f : Cont → H → Store → (Option H × Store × String)) : RunState × String :=
   let i := idxOf name
@@ -26,6 +30,27 @@ def withHandle (st : RunState) (name : String) (f : Cont → H → Store → (Op
     let (h', s', out) := f c h s
     ({ st with w := (st.w.setStore h.store s').setHandle i h' }, out)
   | _, _ => ({ st with dead := true }, "unmodelled")
+
+/-- The requested region BEHIND the returned count (C05 leaves it to the implementation unless the count is 0).  `Sf.stepRead`
+    shows it untouched.  The same-width PCM paths (`pcm_read_les2s` / `bes2s` / `lei2i` / `bei2i`) read the file straight into the
+    caller's buffer (and swap the whole requested length for big-endian data), so when the file ends inside an item — a 16-bit VOC
+    file: the terminator byte behind the audio — the bytes of that partial item land in the first item behind the count. -/
+def partialItem (h : H) (s0 : Store) (ty : Ty) (items : Int) (o : Out) (buf : List Int) : List Int :=
+  match h.enc with
+  | .pcm ⟨bits, false, big⟩ =>
+    if !((bits == 16 ∧ ty == .s16) ∨ (bits == 32 ∧ ty == .s32)) then buf else
+    let nb := bits / 8
+    if !o.hasData ∨ o.err != 0 ∨ items ≤ 0 ∨ h.mode == .w ∨ h.rpos ≥ h.frames ∨ items % h.ch != 0 then buf else
+    let s1 := if h.lastOp != .r then defaultSeek { h with error := 0 } s0 h.rpos else s0
+    let avail := s1.bytes.length - s1.pos
+    if avail ≥ items.toNat * nb ∨ avail % nb == 0 then buf else
+    let k := avail / nb
+    if (k : Int) > (h.frames - h.rpos) * h.ch then buf else       -- the wrapper cleared everything behind the clipped count
+    let left := (s1.bytes.drop (s1.pos + k * nb)).take (avail % nb)
+    let mem := left ++ List.replicate (nb - left.length) 0xA5
+    let v := if big then ofBE mem else ofLE mem
+    buf.set k (sext bits v)
+  | _ => buf
 
 def runLine (st : RunState) (line : String) : RunState × Option String :=
   let toks := (line.splitOn " ").filter (· ≠ "")
@@ -49,18 +74,18 @@ def runLine (st : RunState) (line : String) : RunState × Option String :=
       let fresh := mode == .w ∨ (mode == .rw ∧ s0.bytes.isEmpty)
       let spec : Option Spec :=
         if fmt / 0x10000 % 0x1000 == 0x04 then some rawSpec
-        else if fresh then specOfMajor2 fmt
-        else specOfBytes2 s0.bytes
+        else if fresh then specOfMajor2 fmt st.text
+        else specOfBytes2 s0.bytes st.text
       match spec with
       | none => ({ st with dead := true }, some "unmodelled")
       | some sp =>
-        match sp.openH si s0 mode fmt ch sr stale with
+        match (contOf sp).openH si s0 mode fmt ch sr stale with
         | .unmodelled => ({ st with dead := true }, some "unmodelled")
         | .fail s => ({ st with w := { (st.w.setStore si s) with sfErrno := 1 } }, some "open=NULL err=E")
         | .ok h s =>
           let i := idxOf hn
           ({ st with w := (st.w.setStore si s).setHandle i (some { h with canTruncate := canTrunc }),
-                     conts := st.conts.set i (some sp.toCont) }, some (showOpen h))
+                     conts := st.conts.set i (some (contOf sp)) }, some (showOpen h))
   | "w" :: hn :: tyS :: unit :: n :: drest =>
     let dataS := drest.headD ""
     match tyOf tyS with
@@ -74,12 +99,12 @@ def runLine (st : RunState) (line : String) : RunState × Option String :=
     match tyOf tyS with
     | none => ({ st with dead := true }, some "unmodelled")
     | some ty =>
-      let (st, out) := withHandle st hn fun _ h s =>
+      let (st, out) := withHandle st hn fun _ h s0 =>
         let nn := parseIntStr n
-        let (h', s, o) := stepRead h s ty (unit == "f") nn
+        let (h', s, o) := stepRead h s0 ty (unit == "f") nn
         let items : Int := if unit == "f" then nn * h.ch else nn
         let buf := if o.hasData then o.data else List.replicate items.toNat (pattern ty)
-        (some h', s, s!"ret={o.ret} {errStr o.err} data={showItems ty buf}")
+        (some h', s, s!"ret={o.ret} {errStr o.err} data={showItems ty (partialItem h s0 ty items o buf)}")
       (st, some out)
   | ["seek", hn, off, wh] =>
     let (st, out) := withHandle st hn fun _ h s =>
@@ -136,15 +161,18 @@ def cmd (args : List String) : IO UInt32 := do
     IO.println rawSpec.name
     for sp in allSpecs2 do IO.println sp.name
     return 0
+  let text : List Byte := match args.find? (·.startsWith "text=") with
+    | some a => parseHexBytes (a.drop 5).toString
+    | none => mat5Text0
   let lines ← readLines
-  let mut st : RunState := {}
+  let mut st : RunState := { text := text }
   let mut inBatch := false
   for line in lines do
     if line.startsWith "== " then
       if inBatch then IO.println "== end"
       IO.println line
       inBatch := true
-      st := {}
+      st := { text := text }
     else
       let (st', out) := runLine st line
       st := st'
